@@ -2,20 +2,20 @@
 // parse_until: externals and the well-formedness of the ActionGroup it produces (C02)
 // ======================================================================================
 
-impl GroupDeterminer {
-    pub uninterp spec fn comb(&self) -> Option<Combinator>;
+/// syn can parse `ts` as a T (`syn::parse2::<T>(ts).is_ok()`)
+pub uninterp spec fn valid_stream<T>(ts: Seq<Tok>) -> bool;
 
-    #[verifier::external_body]
-    pub fn combinator(&self) -> (r: Option<Combinator>) ensures r == self.comb(), { unimplemented!() }
+impl GroupDeterminer {
+    pub open spec fn comb(&self) -> Option<Combinator> { self.combinator }
+
     /// whether the next tokens of `input` are this determiner's pattern.  A pure function of the stream reference: valid
     /// between two consuming calls only (syn's cursor sits behind a Cell) - see the note at `scan_step`
     pub uninterp spec fn matches(&self, input: &ParseBuffer) -> bool;
-    /// whether `ts` is a complete operand of type T for this determiner (`check_parsed`: syn can parse it as T)
-    pub uninterp spec fn parsed_ok<T>(&self, ts: Seq<Tok>) -> bool;
+    /// C14: `ts` is a COMPLETE operand of type T for this determiner: syn can parse it as a T (the determiners that do
+    /// not validate - none of the default table - accept anything)
+    pub open spec fn parsed_ok<T>(&self, ts: Seq<Tok>) -> bool { !self.validate_parsed || valid_stream::<T>(ts) }
     #[verifier::external_body]
     pub fn check_input(&self, input: ParseStream<'_>) -> (r: bool) ensures r == self.matches(input), { unimplemented!() }
-    #[verifier::external_body]
-    pub fn check_parsed<T: Parse>(&self, input: TokenStream) -> (r: bool) ensures r == self.parsed_ok::<T>(input@), { unimplemented!() }
     #[verifier::external_body]
     pub fn erase_input<'b>(&self, input: ParseStream<'b>) -> (r: syn::Result<ParseStream<'b>>) { unimplemented!() }
 }
@@ -26,7 +26,8 @@ impl ParseBuffer {
 }
 
 #[verifier::external_body]
-pub fn parse2<T: Parse>(tokens: TokenStream) -> (r: syn::Result<T>) { unimplemented!() }
+pub fn parse2<T: Parse>(tokens: TokenStream) -> (r: syn::Result<T>) ensures (r is Ok) == valid_stream::<T>(tokens@), { unimplemented!() }
+pub mod syn_fns { }
 
 pub open spec fn mk_group(c: Combinator, deferred: bool, wrap: bool) -> ActionGroup {
     ActionGroup {
